@@ -49,7 +49,7 @@ func (c14) Info() core.Info {
 			"the re-read is skipped when the filtered PMT has no stream (that is C06's recorded finding about ReadPMT)",
 			"any number of output packets is accepted as long as headers match the inputs index-wise and the concatenated payload is the expected section followed only by 0xFF",
 		},
-		RequiredProbes: []string{"keep_none", "keep_some", "keep_all", "missing_some", "missing_all", "dup_requested", "pat_or_pmt_pid_requested", "multi_packet_in", "fewer_packets_out", "pointer_gt0", "af_in_header", "reread_ok", "empty_request", "remove_streams", "refused_call_before", "sibling_call_before", "section_plus_pointer_gt_1021"},
+		RequiredProbes: []string{"keep_none", "keep_some", "keep_all", "missing_some", "missing_all", "dup_requested", "pat_or_pmt_pid_requested", "multi_packet_in", "fewer_packets_out", "pointer_gt0", "af_in_header", "reread_ok", "empty_request", "remove_streams", "refused_call_before", "sibling_call_before", "section_plus_pointer_gt_1021", "requested_value_outside_pid_range"},
 	}
 }
 
@@ -117,6 +117,12 @@ func (c14) Gen(r *core.Rand, tier string) interface{} {
 		}
 		if r.Chance(1, 4) {
 			s.Keep = append(s.Keep, r.Pick(0, pid))
+		}
+		if r.Chance(1, 4) && n > 0 {
+			// a requested value outside the 13-bit PID range whose low 13 bits equal a stream's PID:
+			// it names no stream of the PMT
+			p := s.PMT.Streams[r.Intn(n)].PID
+			s.Keep = append(s.Keep, r.Pick(p|0xE000, p+8192, p+65536, -p-1, p-8192))
 		}
 		if r.Chance(1, 5) {
 			p := r.Perm(len(s.Keep))
@@ -285,6 +291,11 @@ func (c14) Exec(script interface{}, c *core.Ctx) {
 	}
 	if ignored {
 		c.Probe("pat_or_pmt_pid_requested")
+	}
+	for _, p := range s.Keep {
+		if p < 0 || p > 0x1FFF {
+			c.Probe("requested_value_outside_pid_range")
+		}
 	}
 	want := s.PMT.Restrict(s.Keep)
 	switch {
